@@ -42,7 +42,7 @@ Lemma is_class_cases v :
 Proof. unfold is_class. destruct (sclass_of v); intuition. Qed.
 
 Lemma sclass_norm v : sclass_of (norm v) = sclass_of v.
-Proof. destruct v as [| | | | | |dt n| | | | | | | | | |]; try reflexivity. destruct n; reflexivity. Qed.
+Proof. destruct v as [| | | | | |dt n| | | | | | | | | | |]; try reflexivity. destruct n; reflexivity. Qed.
 
 Lemma is_class_norm c v : is_class c (norm v) = is_class c v.
 Proof. unfold is_class. rewrite sclass_norm. reflexivity. Qed.
@@ -135,7 +135,7 @@ Lemma attr_value_norm v k a :
   sclass_of v = SAttr -> path_flag k a = is_path v -> attr_value k (jscalar v) a = norm v.
 Proof.
   intros Hc Hf. unfold attr_value.
-  destruct v as [| | | | | |dt n| | | | | | | | | |]; cbn in Hc; try discriminate; cbn [jscalar is_path norm jval_to_value] in *;
+  destruct v as [| | | | | |dt n| | | | | | | | | | |]; cbn in Hc; try discriminate; cbn [jscalar is_path norm jval_to_value] in *;
     try reflexivity.
   - rewrite Hf. reflexivity.
   - rewrite Hf. reflexivity.
